@@ -5,20 +5,8 @@ From TL Require Import Lib.Base Model.DispatchTypes Gen.DispatchGen Model.Dispat
 Lemma lower_ascii_dot c : is_dot (lower_ascii c) = is_dot c.
 Proof. destruct c as [[] [] [] [] [] [] [] []]; reflexivity. Qed.
 
-Lemma lower_ascii_idem c : lower_ascii (lower_ascii c) = lower_ascii c.
-Proof. destruct c as [[] [] [] [] [] [] [] []]; reflexivity. Qed.
-
-Lemma lower_idem s : lower (lower s) = lower s.
-Proof. induction s as [|c t IH]; cbn [lower]; [reflexivity|]. now rewrite lower_ascii_idem, IH. Qed.
-
-Lemma lower_length s : String.length (lower s) = String.length s.
-Proof. induction s as [|c t IH]; cbn [lower String.length]; [reflexivity|]. now rewrite IH. Qed.
-
 Fixpoint nodot (s : string) : bool :=
   match s with EmptyString => true | String c t => negb (is_dot c) && nodot t end.
-
-Lemma nodot_lower s : nodot (lower s) = nodot s.
-Proof. induction s as [|c t IH]; cbn [lower nodot]; [reflexivity|]. now rewrite lower_ascii_dot, IH. Qed.
 
 (* an extension as pathlib produces it: a dot followed by a non-empty dot-free tail *)
 Definition ext_shape (e : string) : bool :=
@@ -27,10 +15,93 @@ Definition ext_shape (e : string) : bool :=
   | EmptyString => false
   end.
 
-Lemma ext_shape_lower e : ext_shape (lower e) = ext_shape e.
+(* a byte that does not start one of the two special sequences is lower-cased on its own *)
+Lemma lower_cons_plain a t :
+  is_byte a 196 = false -> is_byte a 226 = false -> lower (String a t) = String (lower_ascii a) (lower t).
 Proof.
-  destruct e as [|c t]; cbn [lower ext_shape]; [reflexivity|].
-  now rewrite lower_ascii_dot, nodot_lower, lower_length.
+  intros H1 H2. destruct t as [|b [|c t3]]; cbn [lower]; rewrite ?H1, ?H2; reflexivity.
+Qed.
+
+Lemma is_byte_not_dot a n : is_byte a n = true -> n <> 46 -> is_dot a = false.
+Proof.
+  unfold is_byte, is_dot. intros H Hn. apply Nat.eqb_eq in H.
+  destruct (Ascii.eqb_spec a ".") as [->|]; [|reflexivity]. vm_compute in H. subst n. congruence.
+Qed.
+
+Lemma dot_plain a : is_dot a = true -> is_byte a 196 = false /\ is_byte a 226 = false.
+Proof. unfold is_dot. intro H. apply Ascii.eqb_eq in H. subst a. split; reflexivity. Qed.
+
+(* what lower does to the first characters, by cases *)
+Lemma lower_cases s :
+  match s with
+  | EmptyString => lower s = EmptyString
+  | String a t =>
+      (is_byte a 196 = false /\ is_byte a 226 = false /\ lower s = String (lower_ascii a) (lower t))
+      \/ (exists b t2, t = String b t2 /\ is_byte a 196 = true /\ is_byte b 176 = true
+                       /\ lower s = String "i" (String (ascii_of_nat 204) (String (ascii_of_nat 135) (lower t2))))
+      \/ (exists b c t3, t = String b (String c t3) /\ is_byte a 226 = true /\ is_byte b 132 = true /\ is_byte c 170 = true
+                         /\ lower s = String "k" (lower t3))
+      \/ (is_dot a = false /\ lower s = String (lower_ascii a) (lower t))
+  end.
+Proof.
+  destruct s as [|a t]; [reflexivity|].
+  destruct (is_byte a 196) eqn:E1.
+  - destruct t as [|b t2].
+    + right. right. right. split; [exact (is_byte_not_dot a 196 E1 ltac:(discriminate))|reflexivity].
+    + destruct (is_byte b 176) eqn:E2.
+      * right. left. exists b, t2. cbn [lower]. rewrite E1, E2. auto.
+      * right. right. right. split; [exact (is_byte_not_dot a 196 E1 ltac:(discriminate))|].
+        assert (E3 : is_byte a 226 = false).
+        { unfold is_byte in *. apply Nat.eqb_eq in E1. rewrite E1. reflexivity. }
+        cbn [lower]. rewrite E1, E2, E3. cbn [andb]. destruct t2; reflexivity.
+  - destruct (is_byte a 226) eqn:E3.
+    + destruct t as [|b [|c t3]].
+      * right. right. right. split; [exact (is_byte_not_dot a 226 E3 ltac:(discriminate))|reflexivity].
+      * right. right. right. split; [exact (is_byte_not_dot a 226 E3 ltac:(discriminate))|]. cbn [lower]. rewrite E1. reflexivity.
+      * destruct (is_byte b 132 && is_byte c 170) eqn:E4.
+        -- apply andb_true_iff in E4 as [E4 E5]. right. right. left. exists b, c, t3. cbn [lower]. rewrite E1, E3, E4, E5. auto.
+        -- right. right. right. split; [exact (is_byte_not_dot a 226 E3 ltac:(discriminate))|].
+           cbn [lower]. rewrite E1, E3. cbn [andb]. rewrite E4. reflexivity.
+    + left. split; [reflexivity|]. split; [reflexivity|]. now apply lower_cons_plain.
+Qed.
+
+(* lower neither creates nor removes dots, and maps non-empty strings to non-empty strings *)
+Lemma lower_props n : forall s, String.length s <= n ->
+  (nodot (lower s) = true -> nodot s = true) /\ (lower s = EmptyString -> s = EmptyString).
+Proof.
+  induction n as [|n IH]; intros s Hlen.
+  - destruct s; [split; auto|cbn in Hlen; lia].
+  - pose proof (lower_cases s) as C. destruct s as [|a t]; [split; auto|].
+    cbn [String.length] in Hlen.
+    destruct C as [(_ & _ & E)|[(b & t2 & -> & Ha & Hb & E)|[(b & c & t3 & -> & Ha & Hb & Hc & E)|(_ & E)]]]; rewrite E.
+    + split; [|discriminate]. cbn [nodot]. rewrite lower_ascii_dot. intro H. apply andb_true_iff in H as [H1 H2].
+      rewrite H1. cbn [andb]. apply (IH t); [lia|exact H2].
+    + split; [|discriminate]. cbn [nodot String.length] in *. intro H.
+      rewrite (is_byte_not_dot a 196 Ha ltac:(discriminate)), (is_byte_not_dot b 176 Hb ltac:(discriminate)). cbn [negb andb].
+      apply (IH t2); [lia|]. cbn [is_dot] in H. repeat (apply andb_true_iff in H as [_ H]). exact H.
+    + split; [|discriminate]. cbn [nodot String.length] in *. intro H.
+      rewrite (is_byte_not_dot a 226 Ha ltac:(discriminate)), (is_byte_not_dot b 132 Hb ltac:(discriminate)),
+              (is_byte_not_dot c 170 Hc ltac:(discriminate)). cbn [negb andb].
+      apply (IH t3); [lia|]. apply andb_true_iff in H as [_ H]. exact H.
+    + split; [|discriminate]. cbn [nodot]. rewrite lower_ascii_dot. intro H. apply andb_true_iff in H as [H1 H2].
+      rewrite H1. cbn [andb]. apply (IH t); [lia|exact H2].
+Qed.
+
+(* every spelling whose lower-casing is an extension-shaped string is itself extension-shaped *)
+Lemma ext_shape_of_lower e : ext_shape (lower e) = true -> ext_shape e = true.
+Proof.
+  pose proof (lower_cases e) as C. destruct e as [|a t]; [cbn; discriminate|].
+  destruct C as [(_ & _ & E)|[(b & t2 & -> & Ha & Hb & E)|[(b & c & t3 & -> & Ha & Hb & Hc & E)|(_ & E)]]]; rewrite E.
+  - cbn [ext_shape]. rewrite lower_ascii_dot. intro H. apply andb_true_iff in H as [H H3]. apply andb_true_iff in H as [H1 H2].
+    rewrite H1. cbn [andb].
+    destruct (lower_props (String.length t) t (le_n _)) as [P1 P2]. rewrite (P1 H2). cbn [andb].
+    destruct t as [|x y]; [|reflexivity]. cbn in H3. discriminate.
+  - cbn [ext_shape is_dot]. cbn. discriminate.
+  - cbn [ext_shape is_dot]. cbn. discriminate.
+  - cbn [ext_shape]. rewrite lower_ascii_dot. intro H. apply andb_true_iff in H as [H H3]. apply andb_true_iff in H as [H1 H2].
+    rewrite H1. cbn [andb].
+    destruct (lower_props (String.length t) t (le_n _)) as [P1 P2]. rewrite (P1 H2). cbn [andb].
+    destruct t as [|x y]; [|reflexivity]. cbn in H3. discriminate.
 Qed.
 
 (* ---------- rsplit_dot / py_suffix ---------- *)
